@@ -32,7 +32,7 @@ CHECKS = {
  "C13": ("exploration", "§6 C13", "deterministic simulation: data-file sizes around every merge vs. independent size formula and ground-truth scan",
          "At every merge total data size must not grow; when the thresholds make every non-empty data file eligible (small-file threshold u64::MAX) or the I/O log shows every such file was removed, the total must equal the data size of a fresh store built by the real code from exactly the live pairs, each live key occurs once and no tombstone remains (independent decoder), and a repeated merge changes nothing."),
  "C14": ("exploration", "§6 C14", "deterministic simulation: I/O-log monitor of the file discipline over sequential and reopen workloads",
-         "Every tracked libc call on the store directory is checked: exclusive append-only creation, writes only through the creating descriptor at the end of file, no pwrite/writev/truncate/rename/link, ids strictly above everything the directory ever contained, size bound per file, real bytes == recorded bytes."),
+         "Every tracked libc call on the store directory is checked: exclusive append-only creation, writes only through the creating descriptor at the end of file, no pwrite/writev/truncate/rename/link, ids strictly above everything the directory ever contained, size bound per file, real bytes == recorded bytes. A sixth of the runs are the fault workloads of C20 with one failed call or a short episode at a random position, judged by this file discipline only ('across rollovers, merges, crashes and reopens' includes the clean-up paths after failed calls); a rename is recorded as a breach and also applied to the shadow file system."),
  "C03": ("fault_enumeration", "§6 C03", "deterministic simulation with crash injection: every file-system-call boundary of every sampled workload is a kill point; images built from the recorded shadow and recovered with the real open",
          "For each sampled workload (set/del/merge/reopen, small file limits so rollovers and multi-file merges are common) every state-changing I/O record is a crash point (quick tier: at most 80 per workload, always including first/last record of every operation; thorough: all). The directory image after that prefix of calls is materialised and opened with the real Config::open; every key must read the acknowledged value or the in-flight operation's value, never error/panic/older value; on shares of the images the recovered store must accept a set/get/del round, a second open must read the same, writes the recovered store acknowledges must survive its own clean close and reopen (and, on half of those images, a second kill instead of the close), and a merge on the recovered store (workload's thresholds) must change no read, neither at once nor after a clean close and reopen. A quarter of the workloads are concurrent (2-3 writer threads on disjoint keys plus a merging thread under a seeded schedule; crash points are positions in the global I/O log). A quarter of the sequential workloads contain one failed file-system call (or an episode of 2-3: a full disk or a failing device) before the kill: the operation it hits may fail and its value is then one more alternative for its key until a later acknowledged operation on that key; everything else is judged as before."),
  "C06": ("exploration", "§6 C06", "deterministic simulation of the full stack: real Server on the simulated runtime and TCP model, one scripted client with seeded segmentation and pipelining, sequential map model, independent RESP reply decoder",
@@ -40,13 +40,13 @@ CHECKS = {
  "C08": ("exploration", "§6 C08", "deterministic simulation: two real Connection ends over one simulated stream (or a raw harness writer that stalls / cuts inside a frame), seeded segmentation; independent encoder as reference",
          "Sequences of 1-12 frames from the property's domain (simple strings/errors, i64 extremes and 18/19-digit values, bulk strings incl. trailing CR, empty, 8190-70000 bytes, null, arrays, empty array). (a) write_frame into memory equals the independent encoding; (b) real writer -> simulated stream (partial writes, back-pressure, delays) -> real reader yields equal frames then a clean end; (c) raw writer stalls after a generated byte count: read_frame must have produced exactly the complete frames and still be pending; (d) raw writer cuts the stream inside a frame: read_frame must report an error, not a clean end."),
  "C09": ("fault_enumeration", "§6 C09", "deterministic simulation with power-loss injection: per crash point, per file any suffix after the last completed fsync is dropped; recovery with the real open vs. acknowledged-writes model",
-         "Workloads under sync=always; every write/create/unlink/fsync record is a power-loss point with two images each: everything unsynced lost, and per-file random surviving lengths between synced and written length (torn tails, hint file ahead of data file). Same recovery oracle as C03, including the workloads with a failed file-system call (or a short episode of failures) before the power loss: what was acknowledged before and after the failed operation must still be durable."),
+         "Workloads under sync=always; every write/create/unlink/fsync record is a power-loss point with two images each: everything unsynced lost, and per-file random surviving lengths between synced and written length (torn tails, hint file ahead of data file). Same recovery oracle as C03, including the workloads with a failed file-system call (or a short episode of failures) before the power loss: what was acknowledged before and after the failed operation must still be durable. On a share of the points a lineage of TWO failures is followed: the process is killed (or loses power) at the point, restarts with sync=always, acknowledges a few writes and deletes and runs a merge, and then the power fails; what the restarted store acknowledged must be there, and every other key must still read what had been acknowledged (or was in flight) at the first failure."),
  "C20": ("fault_enumeration", "§6 C20", "deterministic simulation with I/O fault injection: one transient errno at each individual write/create/fsync/unlink call (a third of the runs also read-side calls), every position; in a third of the workloads every position is also the start of an episode of 2-4 consecutive failures (full disk / failing device)",
          "A fault-free pass of the workload (plus a final merge and close/reopen) lists its faultable calls; then the workload is re-run once per position with that call failed (ENOSPC/EIO/EDQUOT/EMFILE/EACCES; writes also as short-write-then-error). The failed operation must return Err, every other key must read the model value at once, all later operations must succeed and behave, a later merge must succeed, after close/reopen every acknowledged key reads its value, and the reader pool is back at capacity. A third of the quick runs (half of the thorough ones) also fail read-side calls (open for reading, fstat, mmap, read, opendir); a fifth let the store's own timer-driven merge/sync tasks make the failing call, after which a later tick of the same instance must merge again. In a third of the workloads each position is additionally run as the start of an episode: 1-3 further calls fail, either a full disk (writes and creates fail with ENOSPC, the rest works) or a failing device (every faultable call fails with EIO); an operation may fail exactly when a call of it was failed, a key can collect several alternatives from failed writes, and a failed open is retried as long as each failure coincides with a newly injected one."),
  "C15": ("exploration", "§6 C15", "deterministic simulation of the full stack: M in {1,2,3} slots, M+1..M+4 clients ending in every way the property lists (close, half-sent frame, reset, malformed command, handler panic and store error injected through the server's KV type parameter), accept errors with back-off on the simulated clock",
          "A connection is 'definitely held' from its first reply until its client performs the action that ends it. (i) never more than M definitely held; (ii) at every strongly quiescent point (nothing runnable, no timer pending) no client may still be waiting to be served; (iii) after all clients are gone M fresh clients must all be served at the same time. Half of the clients that wait for the server after a malformed command, an injected handler panic or store error, or a half-close never close their own socket once they have seen the server end the connection: a slot must not depend on the client closing a connection the server has already ended."),
  "C16": ("exploration", "§6 C16", "deterministic simulation of the full stack: the shutdown future is a simulator one-shot fired at a scripted point of a connection's life (idle, mid-frame, mid-command, reply in flight, pipelined) or at a generated simulated time",
-         "0-4 clients on disjoint keys, all reading until end of stream. Oracles: Server::run returns within 60 simulated seconds (checked in growing steps) and no connection task is alive at the instant it returns; each client's byte stream is complete correct replies followed by end of stream (no torn reply); per connection the store holds a prefix of its requests at least as long as the replies it received; afterwards the port is free and no server task is alive."),
+         "0-4 clients on disjoint keys, all reading until end of stream; in a third of the runs the connection limit is 1 or 2, so that clients are still queued behind the limit (never served) when the signal fires. Oracles: Server::run returns within 60 simulated seconds (checked in growing steps) and no connection task is alive at the instant it returns; each client's byte stream is complete correct replies followed by end of stream (no torn reply); per connection the store holds a prefix of its requests at least as long as the replies it received; afterwards the port is free and no server task is alive."),
  "C17": ("exploration", "§6 C17", "deterministic simulation on the discrete-event clock: the store's background thread (adopted through pthread_create interposition) under seeded schedules, drop at generated instants, stale-handle use, immediate reopen, open/close cycles",
          "Merge policy always / interval sync with check intervals from 10 ms to 1 h (a fifth of the runs with the window policy: windows open, closed, closing, opening relative to the simulated wall clock), disk latency stretching merges and syncs, 0-2 client threads racing the drop; in a quarter of the runs with timer-driven merging one file-system call (or an episode of 2-4) of the store's own background threads fails while client calls are never failed. Oracles: every operation invoked through a handle after the drop returned yields the 'closed' error; operations racing the drop go either way and define the model; the directory opens again at once and holds exactly the acknowledged contents; every background worker exits without the simulated clock having to reach its next timer (slack = 50 simulated ms plus injected disk latency; a worker still alive after two of its longest timer intervals is reported as never exiting); no store descriptor stays open after the cycles."),
  "C18": ("exploration", "§6 C18", "deterministic simulation on the discrete-event clock: triggers placed just above / exactly at / below the statistics a workload produced; merges and fsyncs observed in the I/O log with simulated timestamps",
